@@ -1,7 +1,9 @@
 """Runs the real get_combinations_from_columns and mixed_rank_graph (serial fake pool) on generated frames.
 Under /venv/bin/python with PYTHONPATH=$OUTRANK_REPO.  JSON on stdin, one line `@@RESULT <json>` on stdout.
 
-case = {cols, label, heuristic, tro, cap, batches, nrows, data_seed[, prelude: [case...]][, light]}
+case = {cols, label, heuristic, tro, cap, batches, nrows, data_seed[, prelude: [case...]][, light]
+        [, combine: {order, rel, cap}][, pool: {kind: fake|pathos, ncpus}]}
+result.cols = the columns of the frame actually ranked (differs from case.cols only with `combine`)
 result = {ok, cands: [[a, b]], cap_after_cands, batches: [{rows: [[a, b, score_key]], cap_after, sampled: [[a, b]] | None}], error}
 score_key = "0" for a score equal to 0.0, otherwise the hex of the IEEE-754 bits (equal keys <=> bit-identical scores).
 """
@@ -31,6 +33,14 @@ class _Res:
 
 
 class FakePool:
+    """Serial stand-in for the pathos pool; may carry the attributes a pathos ProcessingPool exposes (ncpus, nodes).
+    Whatever function it is handed is evaluated on whatever iterable it is handed, in order."""
+
+    def __init__(self, ncpus=None):
+        if ncpus is not None:
+            self.ncpus = ncpus
+            self.nodes = ncpus
+
     def __enter__(self):
         return self
 
@@ -103,6 +113,27 @@ if _orig_sampler is not None:
     cr.prior_combinations_sample = _wrapped
 
 
+def make_pool(case):
+    """-> (pool, cleanup).  case['pool'] = {'kind': 'fake'|'pathos', 'ncpus': k}; default: serial fake pool without attributes."""
+    spec = case.get('pool') or {}
+    if spec.get('kind') == 'pathos':
+        # built the way outrank/task_ranking.py builds GLOBAL_CPU_POOL
+        from pathos.multiprocessing import ProcessingPool as Pool
+        pool = Pool(int(spec['ncpus']))
+
+        def cleanup():
+            try:
+                pool.close()
+                pool.join()
+                pool.clear()
+            except Exception:
+                pass
+        return pool, cleanup
+    if spec.get('kind') == 'fake':
+        return FakePool(int(spec['ncpus'])), (lambda: None)
+    return FakePool(), (lambda: None)
+
+
 def as_pair(t):
     t = tuple(t)
     if len(t) != 2:
@@ -115,20 +146,29 @@ ROW_RECORD_LIMIT = 6000   # rows recorded per batch; the true number is always r
 
 def run_case(case):
     reset_globals()
-    res = {'ok': True, 'cands': None, 'cap_after_cands': None, 'batches': [], 'error': None}
+    res = {'ok': True, 'cols': None, 'cands': None, 'cap_after_cands': None, 'batches': [], 'error': None}
     try:
         df = make_frame(case)
         if list(df.columns) != list(case['cols']):
             raise RuntimeError('harness: frame columns differ from the case')
+        comb = case.get('combine')
+        if comb:
+            # feature space enlarged by the real compute_combined_features (interaction / relation names)
+            ca = make_args(case)
+            ca.interaction_order = int(comb['order'])
+            ca.combination_number_upper_bound = int(comb.get('cap', 10 ** 6))
+            df = cr.compute_combined_features(df, ca, FakeBar(), bool(comb.get('rel')))
+        res['cols'] = [str(x) for x in df.columns]
         a0 = make_args(case)
         cands = cr.get_combinations_from_columns(df.columns, a0)
         res['cands'] = [as_pair(t) for t in cands]
         res['cap_after_cands'] = int(a0.combination_number_upper_bound)
         args = make_args(case)
         light = bool(case.get('light'))
+        pool, cleanup = make_pool(case)
         for _ in range(case['batches']):
             del _sampled[:]
-            summary = cr.mixed_rank_graph(df, args, FakePool(), FakeBar())
+            summary = cr.mixed_rank_graph(df, args, pool, FakeBar())
             rows = summary.triplet_scores
             b = {'cap_after': int(args.combination_number_upper_bound), 'nrows': len(rows)}
             if not light:
@@ -140,6 +180,7 @@ def run_case(case):
                 b['truncated'] = len(rows) > len(rec)
                 b['sampled'] = _sampled[-1] if len(_sampled) == 1 else None
             res['batches'].append(b)
+        cleanup()
     except Exception as e:  # a recorded outcome; the harness decides
         res['ok'] = False
         res['error'] = '%s: %s' % (type(e).__name__, e)
